@@ -11,14 +11,14 @@
     dfan.c statics are shared) whose annotation-type arguments are 0..3 ([gop_ok]; other values index
     file_rec->an_num[] out of bounds in C). *)
 From Coq Require Import ZArith List Bool.
-Require Import H4.ANLang H4.gen.Gen_AN H4.ANSpec H4.ANModel H4.ANProofs H4.ANProofs2.
+Require Import H4.ANLang H4.gen.Gen_AN H4.ANSpec H4.ANModel H4.ANProofs H4.ANProofs2 H4.ANSim.
 Import ListNotations.
 Local Open Scope Z_scope.
 
 (** every reachable state of the library tables satisfies the invariant [Inv] the theorems below start from *)
-Definition reach (names : Z -> list Z) (xs : list gop) (f : Z) : lstate := h_lib (g_files (grun (ginit names) xs) f).
+Definition reach_lib (names : Z -> list Z) (xs : list gop) (f : Z) : lstate := h_lib (g_files (grun (ginit names) xs) f).
 
-Theorem an_reachable_invariant : forall names xs f, Forall gop_ok xs -> Inv (reach names xs f).
+Theorem an_reachable_invariant : forall names xs f, Forall gop_ok xs -> Inv (reach_lib names xs f).
 Proof. intros names xs f H. exact (greachable_Inv xs (ginit names) (ginit_Inv names) H f). Qed.
 Print Assumptions an_reachable_invariant.
 
@@ -35,7 +35,7 @@ Print Assumptions an_payload_roundtrip.
     tag/ref are the same identifier; ANtagref2id inverts ANid2tagref, and ANid2tagref inverts ANtagref2id.
     (Before the fix of ANIcreate this fails: see design.d/C11.md, defect 18.) *)
 Theorem an_id_bijection : forall names xs f, Forall gop_ok xs ->
-  let s := reach names xs f in
+  let s := reach_lib names xs f in
   (forall id1 id2 tr, ANid2tagref s id1 = Some tr -> ANid2tagref s id2 = Some tr -> id1 = id2) /\
   (forall id g r, ANid2tagref s id = Some (g, r) -> ANtagref2id s g r = (s, id)) /\
   (forall g r s' id, 0 <= r < 65536 -> ANtagref2id s g r = (s', id) -> id <> FAILV -> ANid2tagref s' id = Some (g, r)).
@@ -54,7 +54,7 @@ Print Assumptions an_new_ref_fresh.
     annotation are untouched, the written one holds its recorded target + the new text, and the directory
     order is kept (rewrite in place) or extended by one (first write) *)
 Theorem an_rewrite_preserves_others : forall names xs f id text s' ok, Forall gop_ok xs ->
-  let s := reach names xs f in
+  let s := reach_lib names xs f in
   ANIwriteann s id text = (s', ok) ->
   (forall id', ANid2tagref s' id' = ANid2tagref s id') /\
   l_tree s' = l_tree s /\ l_num s' = l_num s /\
@@ -73,46 +73,75 @@ Proof.
 Qed.
 Print Assumptions an_rewrite_preserves_others.
 
-(** PARTIAL (an_list_exact): (1) ANannlist/ANnumann return, without repetition, exactly the identifiers of the tree
-    entries attached to the given object tag/ref, and the count agrees; (2) a tree loaded from the file holds exactly
-    the annotations of that tag that are in the file (so after a reopen listing is exact), their number being
-    Hnumber.  Together with an_new_ref_fresh / an_rewrite_preserves_others (creation adds one fresh key, writing
-    changes no tree) this determines the tree at all times, but the assembled statement -- in every reachable
-    state the tree of a loaded type = annotations in the file + created-but-unwritten ones, hence ANannlist =
-    ANSpec.on_target -- is NOT proved (missing lemma: that invariant across ANIcreate / ANIwriteann / ANend and the
-    DFAN calls made between sessions); that link rests on the R-vs-S correspondence. *)
-Theorem an_list_exact_partial :
-  (forall names xs f ty g r s' ids, Forall gop_ok xs -> tyok ty ->
-     ANIannlist (reach names xs f) ty g r = (s', Some ids) ->
-     exists t, l_tree s' ty = Some t /\ NoDup ids /\
-       (forall id, In id ids <-> exists k e, In (k, e) t /\ e_elmtag e = g /\ e_elmref e = r /\ e_id e = id) /\
-       ANInumann (reach names xs f) ty g r = (s', zlen ids)) /\
-  (forall names xs f ty tag s' n, Forall gop_ok xs ->
-     let s := reach names xs f in
+(** The simulation relation [Sim h a] (ANSim.v): the specification state [a] -- the finite map -- represents the
+    harness/library state [h]: the library tables satisfy [Inv] and the tree/file invariant [TF] (every loaded tree
+    holds exactly the annotations of its tag in the file plus the ones created in this session), the keys of [a] are
+    unique, [x] is in the map iff the annotation exists in [h] ([Repr]: written = a descriptor with that payload,
+    pending = a tree entry without descriptor), the session flags agree, outside a session no tree is loaded, and
+    every caller-side slot denotes the same annotation on both sides.
+    [reach h a]: produced from the empty file by AN-interface calls inside the property's domain (the specification
+    is fed the refs the library chose and answered neither [RUnspec] nor ran out of refs) and by DFAN calls. *)
+
+(** listing is exact: in EVERY reachable state, ANannlist / ANnumann of an object tag/ref, ANfileinfo and
+    ANselect(index) return what the specification's map says -- the same refs (as a permutation: the order is
+    not part of the property), the same counts, a selected annotation that exists -- never more, never fewer;
+    this includes states reached through DFAN calls and after any number of reopens. *)
+Theorem an_list_exact : forall h a, reach h a ->
+  (forall ty g r h' mr a' sr, tyok ty -> mstep h (OAnnlist ty g r) = (h', mr) -> step a (OAnnlist ty g r) = (a', sr) ->
+     Sim h' a' /\ accepts sr mr /\ sr <> RUnspec) /\
+  (forall ty g r h' mr a' sr, tyok ty -> mstep h (ONumann ty g r) = (h', mr) -> step a (ONumann ty g r) = (a', sr) ->
+     Sim h' a' /\ accepts sr mr /\ sr <> RUnspec) /\
+  (forall h' mr a' sr, mstep h OFileInfo = (h', mr) -> step a OFileInfo = (a', sr) ->
+     Sim h' a' /\ accepts sr mr /\ sr <> RUnspec) /\
+  (forall slot ty idx x0 h' mr a' sr, tyok ty -> mstep h (OSelect slot ty idx x0) = (h', mr) ->
+     step a (OSelect slot ty idx (ref_of mr)) = (a', sr) -> Sim h' a' /\ accepts sr mr /\ sr <> RUnspec).
+Proof. exact list_exact_lemma. Qed.
+Print Assumptions an_list_exact.
+
+(** the reachability relation is not empty-handed: every reachable pair is related, and a DFAN call always leaves a
+    state that SOME specification state represents (so [reach_df] can fire) *)
+Theorem an_reach_related : (forall h a, reach h a -> Sim h a) /\
+  (forall h a o h' mr, Sim h a -> is_dfan o -> mstep h o = (h', mr) -> exists a', Sim h' a').
+Proof. split; [exact reach_Sim | exact dfan_representable]. Qed.
+Print Assumptions an_reach_related.
+
+(** M-level facts about the trees used on the way (kept: they are what the tie to the file looks like) *)
+Theorem an_tree_is_file : forall names xs f ty tag s' n, Forall gop_ok xs ->
+     let s := reach_lib names xs f in
      atype2tag ty = Some tag -> l_num s ty = -1 -> ANIcreate_ann_tree s ty = (s', n) -> n <> FAILV ->
      n = hnumber tag (l_dds s) /\
      exists t, l_tree s' ty = Some t /\
-       forall k, In k (tkeys t) <-> exists d, In d (l_dds s) /\ d_tag d = tag /\ k = AN_CREATE_KEY ty (d_ref d)).
+       forall k, In k (tkeys t) <-> exists d, In d (l_dds s) /\ d_tag d = tag /\ k = AN_CREATE_KEY ty (d_ref d).
 Proof.
-  split.
-  - intros names xs f ty g r s' ids H Hty.
-    exact (annlist_exact_lemma _ _ _ _ _ _ (greachable_Inv xs (ginit names) (ginit_Inv names) H f) Hty).
-  - intros names xs f ty tag s' n H s.
-    exact (create_tree_exact_lemma _ _ _ _ _ (greachable_Inv xs (ginit names) (ginit_Inv names) H f)).
+  intros names xs f ty tag s' n H s.
+  exact (create_tree_exact_lemma _ _ _ _ _ (greachable_Inv xs (ginit names) (ginit_Inv names) H f)).
 Qed.
-Print Assumptions an_list_exact_partial.
+Print Assumptions an_tree_is_file.
 
-(** PARTIAL (an_refines_map): the read side of the refinement.  After a successful ANwriteann of [txt] through
-    identifier [id], in any reachable state, ANreadann into any buffer of maxlen >= 1 bytes leaves exactly the
-    buffer image the SPECIFICATION defines ([ANSpec.buffer_image]: labels at most maxlen-1 bytes + NUL, descriptions
-    at most maxlen bytes, rest untouched) and ANannlen returns the length of [txt]; with
-    an_rewrite_preserves_others (frame) and an_payload_roundtrip (target) this is the map law "write k v; read k = v,
-    read k' unchanged".  NOT proved: the full simulation [mstep ~ ANSpec.step] over all operations (creation order
-    vs. map order, reopen dropping unwritten entries, the DFAN directory); missing lemma: the abstraction function
-    from (descriptors, trees, atoms, DFAN directory) to ANSpec.state commutes with every step.  That part rests on
-    the R-vs-S and R-vs-M correspondence. *)
-Theorem an_refines_map_partial : forall names xs f id txt s' maxlen, Forall gop_ok xs ->
-  let s := reach names xs f in
+(** PARTIAL (an_refines_map).  PROVED: the multi-file AN interface refines the map.  From ANY related pair (in
+    particular the empty file, [Sim_init], and every state of [reach]) one step of the harness on an AN operation
+    -- ANstart, ANend (i.e. reopen: unwritten annotations vanish), ANcreate, ANcreatef, ANwriteann (first write and
+    rewrite, longer or shorter), ANreadann, ANannlen, ANselect, ANfileinfo, ANnumann, ANannlist, ANtagref2id,
+    ANid2tagref, ANendaccess -- and one step of ANSpec.step fed the ref the library chose yield related states and
+    an accepted result (equal values; listings up to order; every buffer one of the images the specification
+    allows), unless the specification puts the call outside the domain ([RUnspec]: empty text, NUL in a label,
+    buffer < 1 byte) or the 16-bit ref space is exhausted (C20); [an_run_sim] lifts this to whole histories.
+    NOT proved (missing lemma: coherence of the cached DFAN directory with the file, and through DFANIopen across
+    several files): that the six DFAN operations return what ANSpec.step says (which label DFANgetlabel picks, that
+    DFANputlabel replaces a label of THAT object, DFANlablist, the file-annotation enumeration).  For them only
+    [an_reach_related] is proved (the state stays representable); their results rest on the R-vs-S and R-vs-M
+    correspondence and on [dfan_open_keeps_directory_iff_same_name]. *)
+Theorem an_refines_map_partial :
+  (forall h a o h' mr a' sr, Sim h a -> an_op o -> mstep h o = (h', mr) -> step a (fill o mr) = (a', sr) ->
+     sr = RUnspec \/ exhausted sr mr \/ (Sim h' a' /\ accepts sr mr)) /\
+  (forall ops h a, Sim h a -> Forall an_op ops -> run_ok h a ops) /\
+  Sim hinit init.
+Proof. split; [exact an_step_sim | split; [exact an_run_sim | exact Sim_init]]. Qed.
+Print Assumptions an_refines_map_partial.
+
+(** write, then read (M-level, any buffer size >= 1): exactly the specification's buffer image and the text length *)
+Theorem an_write_then_read : forall names xs f id txt s' maxlen, Forall gop_ok xs ->
+  let s := reach_lib names xs f in
   ANIwriteann s id txt = (s', true) -> 1 <= maxlen ->
   exists tag ref, ANid2tagref s id = Some (tag, ref) /\ ANid2tagref s' id = Some (tag, ref) /\
     ANIreadann s' id maxlen = Some (buffer_image (is_label_tag tag) txt maxlen) /\ ANIannlen s' id = zlen txt.
@@ -120,7 +149,7 @@ Proof.
   intros names xs f id txt s' maxlen H s.
   exact (write_then_read_lemma _ _ _ _ _ (greachable_Inv xs (ginit names) (ginit_Inv names) H f)).
 Qed.
-Print Assumptions an_refines_map_partial.
+Print Assumptions an_write_then_read.
 
 (** several files in one process: DFANIopen keeps the cached DFAN directory exactly when the file name is the one
     used last (names are C strings shorter than DF_MAXFNLEN; not in create mode).  The condition is regenerated
@@ -185,4 +214,29 @@ Example demo_listing_after_reopen :
 Proof. vm_compute. reflexivity. Qed.
 Example demo_payload : decode_target (payload DFTAG_DIA 65535 258 [0; 7; 0]) = (65535, 258) /\
                        payload DFTAG_DIA 65535 258 [0; 7; 0] = [255; 255; 1; 2; 0; 7; 0].
+Proof. vm_compute. split; reflexivity. Qed.
+
+(** non-vacuity of the simulation theorems: a reachable pair after a session that created and wrote an annotation,
+    the hypotheses of [an_run_sim] for a history with two creates before the first write, a rewrite and a reopen,
+    and what model and specification answer to a listing there *)
+Definition demo_an_ops : list op :=
+  [OStart; OCreate 0 0 700 1 0; OCreate 1 0 700 1 0; OCreatef 2 3 0; OWrite 1 [66; 0; 66]; OWrite 0 [65];
+   OWrite 0 [65; 65; 65; 65]; OAnnlist 0 700 1; OEnd; OStart; OFileInfo; OSelect 3 0 1 0; ORead 3 9].
+Example demo_an_ops_ok : Forall an_op demo_an_ops.
+Proof. repeat constructor; unfold tyok, u16; simpl; auto with zarith. Qed.
+Example demo_run_ok : run_ok hinit init demo_an_ops.
+Proof. exact (an_run_sim demo_an_ops hinit init Sim_init demo_an_ops_ok). Qed.
+Example demo_reach : exists h a, reach h a /\ anns a = [mkann (0, 1) 700 1 (Some [65])] /\ h_sess h = true.
+Proof.
+  eexists. eexists. split.
+  - eapply (reach_an _ _ (OWrite 0 [65])); [eapply (reach_an _ _ (OCreate 0 0 700 1 0)); [eapply (reach_an _ _ OStart); [exact reach_init | exact I | reflexivity | reflexivity | discriminate | intros [X _]; discriminate]
+      | unfold an_op, u16; auto with zarith | reflexivity | reflexivity | discriminate | intros [X _]; discriminate]
+      | exact I | reflexivity | reflexivity | discriminate | intros [X _]; discriminate].
+  - split; reflexivity.
+Qed.
+Example demo_listing_model_vs_spec :
+  let h := mrun hinit [OStart; OCreate 0 0 700 1 0; OCreate 1 0 700 1 0; OWrite 1 [66]] in
+  snd (mstep h (OAnnlist 0 700 1)) = MOk [2; 2; 1] [] /\
+  snd (step (fst (step (fst (step (fst (step (fst (step init OStart)) (OCreate 0 0 700 1 1))) (OCreate 1 0 700 1 2))) (OWrite 1 [66])))
+            (OAnnlist 0 700 1)) = ROk [2; 1; 2] [].
 Proof. vm_compute. split; reflexivity. Qed.
